@@ -352,6 +352,29 @@ func famSesWtq(t *testing.T, r *Rec) {
 			}
 		}
 	}
+	// a peer that closes its WebTransport session: the session closes once; which reason it carries is compared with
+	// the model and judged by the monitor (known finding: the port reports a transport error, see known_findings.json)
+	{
+		g := &sesGen{r: r, I: 25000, T: 20000, rt: true}
+		g.add(fmt.Sprintf(wtqCfg, 60000))
+		ss := &gSess{ord: 0, transport: "webtransport", proto: 4, conn: 0, poll: -1, hsReq: -1, reqs: map[int]string{}}
+		g.nconn = 1
+		g.sess = append(g.sess, ss)
+		g.add("ses hs webtransport 4 0 -")
+		g.add("ses obs")
+		g.add("ses drop 0")
+		ss.closeCause = true
+		g.add("ses obs")
+		q := toSesq(g.lines)
+		if outs, ok := sesqStable(t, r, q); ok {
+			r.scenarios++
+			r.Cover("wtq/peer-closes-its-session")
+			for i, l := range q {
+				r.Op(l, outs[i])
+			}
+			monitorSession(r, g, outs)
+		}
+	}
 	// one pre-encoded frame handed to several sends (what a broadcast does): every write of it puts the same bytes on the wire
 	{
 		g := &sesGen{r: r, I: 25000, T: 20000, rt: true}
